@@ -431,12 +431,153 @@ def c20(ctx):
     return out, n
 
 
+# ---------------------------------------------------------------- C17: reference serialiser (no rounding anywhere)
+
+def ser_int(name, v):
+    size, _, order = INTS[name]
+    bs = list((v & (256 ** size - 1)).to_bytes(size, 'little'))
+    return bs[::-1] if order == 'be' else bs
+
+
+def ser_size(t):
+    """size of a sized portable type: plain sums, enums = tag + largest variant"""
+    k = t[0]
+    if k == 'unit':
+        return 0
+    if k == 'bool':
+        return 1
+    if k == 'int':
+        return INTS[t[1]][0]
+    if k == 'arr':
+        return t[2] * ser_size(t[1])
+    if k == 'struct':
+        return sum(ser_size(f) for f in t[2])
+    if k == 'enum':
+        return INTS[t[2]][0] + max([sum(ser_size(f) for f in v) for v in t[4]] + [0])
+    raise ValueError(t)
+
+
+def ser(t, ini):
+    """documented portable encoding of the content `ini` of type t: tag, fields, length, elements, offset slots and
+    items concatenated in declaration order and fixed byte order.  None = a byte no content determines (the bytes of
+    a sized enum after a shorter variant's fields)."""
+    k = t[0]
+    dflt = (ini == 'default')
+    if k == 'unit':
+        return []
+    if k == 'bool':
+        return [0 if dflt else num(ini[1])]
+    if k == 'int':
+        return ser_int(t[1], 0 if dflt else num(ini[1]))
+    if k == 'arr':
+        items = ['default'] * t[2] if dflt else ini[1:]
+        return [b for i in items for b in ser(t[1], i)]
+    if k == 'struct':
+        items = ['default'] * len(t[2]) if dflt else ini[1:]
+        return [b for f, i in zip(t[2], items) for b in ser(f, i)]
+    if k == 'enum':
+        v = t[3] if dflt else num(ini[1])
+        items = [] if dflt else ini[2:]
+        body = ser_int(t[2], v) + [b for f, i in zip(t[4][v], items) for b in ser(f, i)]
+        if t[1]:
+            body = body + [None] * (ser_size(t) - len(body))
+        return body
+    if k == 'vec':
+        items = [] if (dflt or ini == 'empty') else ini[1:]
+        return ser_int(t[2], len(items)) + [b for i in items for b in ser(t[1], i)]
+    if k == 'str':
+        h = '-' if (dflt or ini == 'empty') else ini[1]
+        bs = [] if h == '-' else [int(h[2 * i:2 * i + 2], 16) for i in range(len(h) // 2)]
+        return ser_int(t[1], len(bs)) + bs
+    if k == 'flex':
+        items = [] if (dflt or ini == 'empty') else ini[1:]
+        if not items:
+            return ser_int(t[2], 0)
+        out = []
+        lsz = INTS[t[2]][0]
+        for j, i in enumerate(items):
+            body = ser(t[1], i)
+            last = (j == len(items) - 1)
+            out += ser_int(t[2], 256 ** lsz - 1 if last else lsz + len(body)) + body
+        return out
+    raise ValueError(t)
+
+
+def c17(ctx):
+    """portable definitions: ALIGN == 1; every valid image validates at every address offset; the emplaced image is
+    the reference serialisation of the content"""
+    import shapes
+    out = []
+    n = 0
+    for cid, l in ctx.ops('L'):
+        sid = l.split(' ')[2]
+        if not shapes.declared_portable(ctx.shapes[sid]):
+            continue
+        n += 1
+        r = ctx.rres.get(cid) or ''
+        m = re.search(r'align=(\d+)', r)
+        if not m or m.group(1) != '1':
+            out.append((cid, 'a portable type has ALIGN %s' % (m.group(1) if m else r[:60])))
+    for cid, l in ctx.ops('V', 'M'):
+        md = ctx.meta[cid]
+        if md.get('kind') != 'offset' or not shapes.declared_portable(ctx.shapes[md['shape']]):
+            continue
+        b = ctx.rres.get(md['base'] + '.M')
+        r = ctx.rres.get(cid)
+        if b is None or r is None:
+            continue
+        n += 1
+        bh, rh = parse_kv(b)[1], parse_kv(r)[1]
+        if bh == 'ok' and rh != 'ok':
+            out.append((cid, 'a valid portable image is refused at address offset %d: %s' % (md['off'], rh)))
+    images, slack_reported = {}, set()
+    for cid, l in ctx.ops('E'):
+        md = ctx.meta[cid]
+        t = ctx.shapes[md['shape']]
+        if not shapes.declared_portable(t):
+            continue
+        r = ctx.rres.get(cid)
+        if r is None:
+            continue
+        _, head, kv, flags = parse_kv(r)
+        if md['off'] != 0 and head.startswith('err:BadAlign'):
+            out.append((cid, 'a portable type refuses address offset %d with BadAlign' % md['off']))
+        if head != 'ok':
+            continue
+        n += 1
+        toks = l.split(' ', 5)
+        want = ser(t, parse_sexp(toks[5]))
+        buf = kv.get('buf', '')
+        got = [int(buf[2 * i:2 * i + 2], 16) for i in range(len(buf) // 2)] if buf != '-' else []
+        if kv.get('size') != 'ok:%d' % len(want):
+            out.append((cid, 'size() is %s, the reference serialisation has %d bytes' % (kv.get('size'), len(want))))
+            continue
+        bad = [i for i, w in enumerate(want) if w is not None and (i >= len(got) or got[i] != w)]
+        if bad:
+            out.append((cid, 'byte %d of the image is %s, the reference serialisation has %#04x'
+                        % (bad[0], ('%#04x' % got[bad[0]]) if bad[0] < len(got) else 'missing', want[bad[0]])))
+            continue
+        # is the image a function of the content?  same (shape, content) emplaced over different garbage
+        key = (md['shape'], toks[5])
+        img = got[:len(want)]
+        if key in images and images[key][1] != img and key not in slack_reported:
+            k = [i for i in range(len(want)) if images[key][1][i] != img[i]][0]
+            slack_reported.add(key)
+            out.append((cid, 'enum-slack: the image of the same content differs at byte %d depending on the previous '
+                             'buffer contents (compare %s): bytes of a sized enum behind a shorter variant' %
+                        (k, images[key][0])))
+        images.setdefault(key, (cid, img))
+    return out, n
+
+
 def classify(pid, t, v):
     """known-finding class of an oracle violation (matched by shape and failure mode, not by property alone)"""
     import shapes
     impl = v.get('impl') or ''
     if t is not None and shapes.wide_len(t) and pid in ('C01', 'C15') and ' panic' in (' ' + impl):
         return 'wide_len'
+    if pid == 'C17' and str(v.get('what', '')).startswith('enum-slack:'):
+        return 'enum_slack'
     if pid == 'C18' and t is not None:
         case = v.get('case') or ''
         ini = case.split(' ', 5)[5] if len(case.split(' ', 5)) > 5 else ''
@@ -474,13 +615,22 @@ PROJECTION = {
     'C06': {'M': ['view', 'size']},
     'C14': {'E': ['buf'], 'A': ['buf'], 'D': ['buf']},
     'C15': {'E': [], 'D': []},
+    'C17': {'L': None, 'V': [], 'E': ['buf', 'val', 'view', 'size']},
     'C18': {'A': ['buf', 'val', 'view', 'size']},
     'C19': {'V': [], 'M': []},
     'C20': {'D': ['buf', 'val', 'view', 'size']},
 }
 
-ORACLES = {'C01': c01, 'C02': c02, 'C03': c03, 'C04': c04, 'C05': c05, 'C06': c06, 'C14': c14, 'C15': c15, 'C18': c18,
+ORACLES = {'C17': c17, 'C01': c01, 'C02': c02, 'C03': c03, 'C04': c04, 'C05': c05, 'C06': c06, 'C14': c14, 'C15': c15, 'C18': c18,
            'C19': c19, 'C20': c20}
+
+
+def shape_filter(pid):
+    """restriction of a property's population of programs"""
+    import shapes
+    if pid == 'C17':
+        return shapes.declared_portable
+    return None
 
 
 def head_class(pid, head):
